@@ -61,3 +61,18 @@ Proof.
   - intro G. destruct (C G) as [D _]. cbn [limits_now maxc] in D. lia.
 Qed.
 Goal True. idtac "@@OBL c03_every_path_every_config". Abort.
+
+(* ... and under EVERY validity of the issuing CA certificate (not valid yet, about to expire, ...):
+   the literal numbers of the property counted from the moment of issuance, never a start in the future *)
+Theorem c03_every_path_every_ca_validity : forall ca_nb ca_na cfg p req c now0 now1 now2 nb na,
+  0 <= issued_at c now0 -> 0 <= now1 <= now2 -> now2 < two64 * NS / 4 ->
+  now1 < issued_at c now0 + two64 * NS / 4 ->
+  effective_window_ca (ca_nb, ca_na) cfg limits_now p req c now0 now1 now2 = Some (nb, na) ->
+  nb <= now2 /\
+  na <= now2 + (match p with Role | Refresh => 45 * 86400 * NS | _ => 24 * 3600 * NS end) /\
+  (is_certgen p = true -> na <= Z.max nb (issued_at c now0 + 24 * 3600 * NS + (now2 - now1))).
+Proof.
+  intros ca_nb ca_na cfg p req c now0 now1 now2 nb na Hi Hn Hb Hb2 H.
+  exact (c03_every_path_every_config cfg p req c now0 now1 now2 nb na Hi Hn Hb Hb2 H).
+Qed.
+Goal True. idtac "@@OBL c03_every_path_every_ca_validity". Abort.
